@@ -317,7 +317,60 @@ def target_parameter():
     return pyvc.collect(paths, "parameter"), sum(1 for p in paths if p.covered)
 
 
-TARGETS = {"comparison": target_comparison, "boolean_constant": target_boolean_constant, "dispatch_function": target_dispatch_function,
+def target_virtual_field_reference():
+    """_compute_constraints_of_field_reference, reference to a VIRTUAL field: the reference gets (a copy of) the type of the
+    value of THAT field - the field that ir_util.find_object finds for the last element of the path - whatever was computed
+    earlier in the same compilation.  Two virtual fields with the same Type.field path in two modules (a.emb, b.emb), with
+    different value types; single references and both orders of two consecutive references (history of two calls; module-level
+    state, if the code keeps any, is whatever the first call left behind).  compute_constraints_of_expression is the callee
+    contract: afterwards the value expression carries its true type."""
+    eng, eb, ir_data, ir_util = _base_engine()
+    computed = []
+
+    def mk_type(lo, hi, mod):
+        return SRec("ExpressionType", {"which_type": "integer", "integer": SRec("IntegerType", {"minimum_value": str(lo), "maximum_value": str(hi), "modulus": str(mod), "modular_value": "0"})})
+    TRUE = {"a.emb": (0, 1020, 4), "b.emb": (0, 524280, 8)}
+    fields = {}
+
+    def reset():
+        del computed[:]
+        for m in TRUE:
+            fields[m] = SRec("Field", {"ghost_virtual": True, "ghost_module": m, "read_transform": SRec("Expression", {"type": SRec("ExpressionType", {"which_type": "integer", "integer": SRec("IntegerType", {})}), "ghost_module": m})})
+
+    def cce(interp, expression, ir):
+        computed.append(expression.f["ghost_module"])
+        expression.f["type"] = mk_type(*TRUE[expression.f["ghost_module"]])
+    eng.contract(eb.compute_constraints_of_expression, cce, "compute_constraints_of_expression")
+    eng.contract(ir_util.find_object, lambda interp, ref, ir: fields[ref.f["canonical_name"].f["module_file"]], "ir_util.find_object")
+    eng.contract(ir_util.field_is_virtual, lambda interp, f: f.f["ghost_virtual"], "field_is_virtual")
+
+    def ref_expr(m):
+        path = [SRec("Reference", {"canonical_name": SRec("CanonicalName", {"module_file": m, "object_path": ["Header", "body_size"]})})]
+        return SRec("Expression", {"type": SRec("ExpressionType", {"which_type": "integer", "integer": SRec("IntegerType", {})}), "field_reference": SRec("FieldReference", {"path": path})})
+
+    def same(t, m):
+        lo, hi, mod = TRUE[m]
+        i = t.f.get("integer")
+        return t.f.get("which_type") == "integer" and isinstance(i, SRec) and (i.f.get("minimum_value"), i.f.get("maximum_value"), i.f.get("modulus"), i.f.get("modular_value")) == (str(lo), str(hi), str(mod), "0")
+
+    def harness(c):
+        seq = c.choice("references", ["a", "b", "a-then-b", "b-then-a", "a-then-a"])
+        mods = [x + ".emb" for x in seq.split("-then-")]
+        reset()
+        c.covered = True
+        exprs = []
+        for m in mods:
+            e = ref_expr(m)
+            exprs.append(e)
+            pyvc.run_body(c, EB + "._compute_constraints_of_field_reference", [e, "IR"])
+        for k, (m, e) in enumerate(zip(mods, exprs)):
+            c.oblige("reference-%d-gets-the-type-of-its-own-field's-value" % (k + 1), same(e.f["type"], m), detail="%s: %r" % (m, {kk: (vv.f if isinstance(vv, SRec) else vv) for kk, vv in e.f["type"].f.items()}))
+            c.oblige("reference-%d-holds-a-copy-not-the-field's-own-type-record" % (k + 1), e.f["type"] is not fields[m].f["read_transform"].f["type"])
+    paths = eng.explore(harness)
+    return pyvc.collect(paths, "virtual_field_reference"), sum(1 for p in paths if p.covered)
+
+
+TARGETS = {"virtual_field_reference": target_virtual_field_reference, "comparison": target_comparison, "boolean_constant": target_boolean_constant, "dispatch_function": target_dispatch_function,
            "dispatch_expression": target_dispatch_expression, "builtin_value": target_builtin_value, "parameter": target_parameter}
 FUNCTIONS = ["_compute_constant_value_of_comparison_operator", "_compute_constant_value_of_boolean_constant", "_compute_constraints_of_function",
-             "compute_constraints_of_expression", "_compute_constraints_of_builtin_value", "_compute_constraints_of_parameter"]
+             "compute_constraints_of_expression", "_compute_constraints_of_builtin_value", "_compute_constraints_of_parameter", "_compute_constraints_of_field_reference"]
